@@ -1,6 +1,8 @@
 (* C14 -- source locations (partial).  Only statements, `exact` proofs and Print Assumptions. *)
 From LolModel Require Import Machine.
-From LolProofs Require Import Corollaries.
+From LolModel Require Import Base TextDecoder.
+From LolProofs Require Import Corollaries TextDecoderProof.
+From Coq Require Import List.
 
 (* Tokens carry absolute ranges: the range of a lexeme inside the current parse buffer shifted by the number of bytes
    consumed by earlier parse calls.  Read against the whole document (consumed prefix ++ buffer) it denotes exactly the
@@ -9,6 +11,16 @@ Theorem C14_absolute_range_denotes_the_lexeme :
   forall (pre chunk : bytes) (r : range), rs r <= re r -> re r <= length chunk ->
     slice (pre ++ chunk) (abs_range (length pre) r) = slice chunk r.
 Proof. exact slice_abs. Qed.
+(* Text chunks: for every streaming decoder obeying decoder_laws, every text node and every split of it into lexemes, the
+   ranges of the chunks handed to handlers are contiguous, start at the node's first byte and end at its last
+   (bytes of a character that straddles a write boundary are attributed to the chunk that delivers the character). *)
+Theorem C14_text_chunk_ranges_tile_their_node :
+  forall (dstate : Type) (dnew : dstate) ddecode valid_up_to Wpart Wfin pend,
+  @decoder_laws dstate dnew ddecode valid_up_to Wpart Wfin pend ->
+  forall start p pieces,
+  tiles (text_node dstate dnew ddecode valid_up_to (p :: pieces) start) start (start + length (concat (p :: pieces))).
+Proof. exact (fun dstate dnew ddecode v Wp Wf pend L start p pieces => proj1 (proj2 (text_node_correct dnew ddecode v Wp Wf pend L start p pieces))). Qed.
 (* NOT proved here: monotonicity/disjointness of successive ranges and the attribute ranges as corollaries of the tiling
    invariant; exercised by correspondence (every source_location() value) and oracle_c14 (slices the original input). *)
 Print Assumptions C14_absolute_range_denotes_the_lexeme.
+Print Assumptions C14_text_chunk_ranges_tile_their_node.
